@@ -13,7 +13,7 @@ class SchedProp(DiffProp):
     fixed_kinds = []  # engine kinds without choice points (one execution each)
     bound = {"quick": 1, "thorough": 2}
     max_exec = {"quick": 400, "thorough": 4000}
-    negcycle_families = ("F1.1", "F1.2")
+    negcycle_families = ("F1.1", "F1.2", "F1.2q")
 
     def run_default(self, prog):
         out, ch = engines.run_with_engine(program_text(prog), "counting")
